@@ -3,7 +3,7 @@ pool schedule x co-fitted subset."""
 from __future__ import annotations
 
 from . import seams, worlds
-from .core import EventLog, Stats, canon_frame, canon_grouped_list, digest, stream
+from .core import EventLog, Stats, canon_frame, canon_grouped_list, digest, import_autocarver, stream
 from .models import DModel, ModelInvalid
 from .session import Session, _Fail
 
@@ -252,54 +252,156 @@ def hashseed_runs(prop, seed, tier, n_worlds, hashseeds):
     return coverage, violations
 
 
+def run_isolated(func, *args):
+    """Runs func(*args) in a forked child and returns its (picklable) result.
+
+    Each world of a pair runs in its own child forked from the same parent state, so that nothing
+    process-global (a memoisation cache, a module-level dict) carries from one world to the other or
+    from one run to the next: the two fits share nothing but the code, like two user processes.
+    """
+    import os  # pylint: disable=C0415
+    import pickle  # pylint: disable=C0415
+
+    read_fd, write_fd = os.pipe()
+    pid = os.fork()
+    if pid == 0:  # child
+        status = 0
+        try:
+            os.close(read_fd)
+            try:
+                payload = pickle.dumps(("ok", func(*args)), protocol=pickle.HIGHEST_PROTOCOL)
+            except BaseException as err:  # pylint: disable=W0718
+                import traceback  # pylint: disable=C0415
+
+                payload = pickle.dumps(("harness_error", f"{type(err).__name__}: {err}\n{traceback.format_exc(limit=6)}"))
+            with os.fdopen(write_fd, "wb") as out:
+                out.write(payload)
+        except BaseException:  # pylint: disable=W0718
+            status = 1
+        finally:
+            os._exit(status)  # pylint: disable=W0212
+    os.close(write_fd)
+    chunks = []
+    with os.fdopen(read_fd, "rb") as inp:
+        while True:
+            block = inp.read(1 << 20)
+            if not block:
+                break
+            chunks.append(block)
+    _, code = os.waitpid(pid, 0)
+    if code != 0 or not chunks:
+        from .core import HarnessError  # pylint: disable=C0415
+
+        raise HarnessError(f"isolated world died (status {code})")
+    kind, value = pickle.loads(b"".join(chunks))
+    if kind != "ok":
+        from .core import HarnessError  # pylint: disable=C0415
+
+        raise HarnessError(f"isolated world raised {value}")
+    return value
+
+
+def _outcome_data(outcome):
+    """A lib() outcome as plain data."""
+    if outcome[0] == "ok":
+        return ["ok", None, None]
+    return [outcome[0], type(outcome[1]).__name__, str(outcome[1])[:400]]
+
+
+def world_summary(spec, reference, frames=None):
+    """Runs one world of the pair (fit + the transform workload) and returns plain data.
+
+    The reference world builds the literal frames (the probe comes from its own fitted orders) and
+    returns them so that the perturbed world transforms exactly the same frames."""
+    wld = _World(spec, reference)
+    sess = wld.sess
+    fit = wld.fit(spec)
+    summary = {"fit": _outcome_data(fit), "features": [], "raw_of": {}, "orders": {}, "orders_repr": {}, "ops": [], "frames": []}
+    if fit[0] == "ok":
+        obj = wld.obj
+        summary["features"] = [str(f) for f in obj.features]
+        summary["raw_of"] = {str(f): _raw(obj, f) for f in obj.features}
+        for feat in obj.features:
+            summary["orders"][str(feat)] = canon_grouped_list(obj.values_orders[feat])
+            summary["orders_repr"][str(feat)] = f"{list(obj.values_orders[feat])!r} {dict(obj.values_orders[feat].content)!r}"
+        model = None
+        if reference:
+            try:
+                model = DModel(obj)
+            except ModelInvalid:
+                model = None
+            sess.model, sess.live = model, obj
+        for step, op in enumerate(spec["ops"]):
+            if op["op"] != "transform":
+                continue
+            if reference:
+                recipe = _fix_inject(op["frame"], spec["world"])
+                if recipe["base"] == "probe" and model is None:
+                    summary["frames"].append(None)
+                    summary["ops"].append(None)
+                    continue
+                frame, meta = sess.resolve_frame(recipe)
+                summary["frames"].append([frame, {"base": meta["base"], "key": meta["key"], "rows": len(frame)}])
+            else:
+                if not frames or len(summary["ops"]) >= len(frames) or frames[len(summary["ops"])] is None:
+                    summary["ops"].append(None)  # the reference world built no frame here
+                    continue
+                frame, meta = frames[len(summary["ops"])]
+                sess.fork_sched(op.get("id", step))
+            outcome, _ = sess.call_transform(wld.obj, frame)
+            data = _outcome_data(outcome)
+            if outcome[0] == "ok":
+                data.append(canon_frame(outcome[1]))
+            summary["ops"].append(data)
+    summary["sched_decisions"] = sess.sched.decisions
+    summary["sched_signature"] = sess.sched.signature()
+    summary["sched_nontrivial"] = sess.sched.nontrivial()
+    summary["stats"] = sess.stats.as_dict()
+    return summary
+
+
 def execute(spec):
     if spec.get("mode") == "hashseed":
         return execute_hashseed(spec)
+    import_autocarver()
+    seams.install()
     world = spec["world"]
     stats = Stats()
     log = EventLog(spec.get("seed"), ["pairsim", spec.get("idx")])
-    ref = _World(spec, reference=True)
-    per = _World(spec, reference=False)
-    per.sess.stats = stats
-    per.sess.sched.stats = stats
     violation = None
     step = -1
     compared_features = 0
     kept_features = 0
+    ref = run_isolated(world_summary, spec, True)
+    per = run_isolated(world_summary, spec, False, ref["frames"])
+    for section, values in per["stats"].items():
+        for key, val in values.items():
+            getattr(stats, section)[key] = getattr(stats, section).get(key, 0) + val
     try:
-        a = ref.fit(spec)
-        b = per.fit(spec)
-        log.add("A", "fit", None, a[0], type(a[1]).__name__ if a[0] != "ok" else None)
-        log.add("B", "fit", None, b[0], type(b[1]).__name__ if b[0] != "ok" else None)
+        a, b = ref["fit"], per["fit"]
+        log.add("A", "fit", None, a[0], a[1])
+        log.add("B", "fit", None, b[0], b[1])
         subset = spec.get("subset")
         if subset:
             stats.fault("subset_features")
         if a[0] != "ok":
             stats.count("world_A_fit_rejected")
             if not subset and b[0] == "ok":
-                raise _Fail(PROP, "fit_outcome", f"reference fit raised {type(a[1]).__name__}: {str(a[1])[:120]} but the permuted/pooled fit succeeded")
-            if not subset and type(a[1]).__name__ != type(b[1]).__name__:
-                raise _Fail(PROP, "fit_outcome", f"reference fit raised {type(a[1]).__name__}, permuted/pooled fit raised {type(b[1]).__name__}: {str(b[1])[:160]}")
+                raise _Fail(PROP, "fit_outcome", f"reference fit raised {a[1]}: {a[2][:120]} but the permuted/pooled fit succeeded")
+            if not subset and a[1] != b[1]:
+                raise _Fail(PROP, "fit_outcome", f"reference fit raised {a[1]}, permuted/pooled fit raised {b[1]}: {b[2][:160]}")
         elif b[0] != "ok":
-            # with a subset, the reference may have been accepted only thanks to ... nothing: every
-            # feature is processed independently, so a subset of an accepted fit must be accepted
+            # every feature is processed independently: a subset of an accepted fit must be accepted
             raise _Fail(
                 PROP,
                 "fit_outcome",
-                f"reference fit succeeded, permuted/pooled{'/subset' if subset else ''} fit raised {type(b[1]).__name__}: {str(b[1])[:200]}",
-                {"exception": type(b[1]).__name__},
+                f"reference fit succeeded, permuted/pooled{'/subset' if subset else ''} fit raised {b[1]}: {b[2][:200]}",
+                {"exception": b[1]},
             )
         else:
-            obj_a, obj_b = ref.obj, per.obj
-            try:
-                model_a = DModel(obj_a)
-            except ModelInvalid as err:
-                model_a = None
-                stats.count("reference_model_invalid")
-                _ = err
             raw_in_scope = set(subset) if subset else {f["name"] for f in world["features"]}
-            feats_a = {str(f) for f in obj_a.features if _raw(obj_a, f) in raw_in_scope}
-            feats_b = {str(f) for f in obj_b.features}
+            feats_a = {f for f in ref["features"] if ref["raw_of"][f] in raw_in_scope}
+            feats_b = set(per["features"])
             kept_features = len(feats_a)
             if feats_a != feats_b:
                 raise _Fail(
@@ -308,45 +410,31 @@ def execute(spec):
                     f"kept in the reference world: {sorted(feats_a)}, in the perturbed world: {sorted(feats_b)}",
                 )
             for feat in sorted(feats_a):
-                ga = canon_grouped_list(obj_a.values_orders[feat])
-                gb = canon_grouped_list(obj_b.values_orders[feat])
-                if ga != gb:
-                    raise _Fail(PROP, "values_orders", f"{feat}: reference {obj_a.values_orders[feat]!r} {dict(obj_a.values_orders[feat].content)!r} vs perturbed {obj_b.values_orders[feat]!r} {dict(obj_b.values_orders[feat].content)!r}")
+                if ref["orders"][feat] != per["orders"][feat]:
+                    raise _Fail(PROP, "values_orders", f"{feat}: reference {ref['orders_repr'][feat]} vs perturbed {per['orders_repr'][feat]}")
                 compared_features += 1
-            log.add("AB", "orders", None, "equal", digest([canon_grouped_list(obj_a.values_orders[f]) for f in sorted(feats_a)]))
-            if model_a is not None:
-                ref.sess.model = model_a
-                ref.sess.live = obj_a
-                per.sess.model = model_a
-            for step, op in enumerate(spec["ops"]):
-                if op["op"] != "transform":
+            log.add("AB", "orders", None, "equal", digest([ref["orders"][f] for f in sorted(feats_a)]))
+            for step, (out_a, out_b, fr) in enumerate(zip(ref["ops"], per["ops"], ref["frames"])):
+                if out_a is None or out_b is None:
                     continue
-                recipe = _fix_inject(op["frame"], world)
-                if recipe["base"] == "probe" and model_a is None:
-                    continue
-                frame, meta = ref.sess.resolve_frame(recipe)
-                if recipe["base"] == "probe":
-                    per.sess.probe = ref.sess.probe
-                per.sess.fork_sched(op.get("id", step))
-                out_a, _ = ref.sess.call_transform(obj_a, frame)
-                out_b, _ = per.sess.call_transform(obj_b, frame)
+                meta = fr[1]
                 log.add("A", "transform", meta["key"], out_a[0])
                 log.add("B", "transform", meta["key"], out_b[0])
-                where = f"step {step} transform({meta['base']}, {len(frame)} rows)"
+                where = f"step {step} transform({meta['base']}, {meta['rows']} rows)"
                 if out_a[0] != "ok":
-                    named = [f for f in feats_a if f in str(out_a[1]) or _raw(obj_a, f) in str(out_a[1])]
-                    others = [f["name"] for f in world["features"] if f["name"] in str(out_a[1]) and f["name"] not in raw_in_scope]
+                    named = [f for f in feats_a if f in out_a[2] or ref["raw_of"][f] in out_a[2]]
+                    others = [f["name"] for f in world["features"] if f["name"] in out_a[2] and f["name"] not in raw_in_scope]
                     if others and not named:
                         stats.count("frame_skipped_rejected_by_feature_outside_subset")
                         continue
                     if out_b[0] == "ok":
-                        raise _Fail(PROP, "same_rejection", f"{where}: reference -> {type(out_a[1]).__name__}: {str(out_a[1])[:140]}; perturbed world accepted")
-                    if type(out_a[1]).__name__ != type(out_b[1]).__name__:
+                        raise _Fail(PROP, "same_rejection", f"{where}: reference -> {out_a[1]}: {out_a[2][:140]}; perturbed world accepted")
+                    if out_a[1] != out_b[1]:
                         raise _Fail(
                             PROP,
                             "same_rejection",
-                            f"{where}: reference -> {type(out_a[1]).__name__}, perturbed -> {type(out_b[1]).__name__}: {str(out_b[1])[:160]}",
-                            {"exception": type(out_b[1]).__name__},
+                            f"{where}: reference -> {out_a[1]}, perturbed -> {out_b[1]}: {out_b[2][:160]}",
+                            {"exception": out_b[1]},
                         )
                     if out_b[0] == "reject":
                         stats.probe("rejection_came_back_from_worker" if spec["n_jobs_b"] > 1 else "rejection_same_class")
@@ -355,10 +443,10 @@ def execute(spec):
                     raise _Fail(
                         PROP,
                         "same_rejection",
-                        f"{where}: reference accepted, perturbed -> {type(out_b[1]).__name__}: {str(out_b[1])[:200]}",
-                        {"exception": type(out_b[1]).__name__},
+                        f"{where}: reference accepted, perturbed -> {out_b[1]}: {out_b[2][:200]}",
+                        {"exception": out_b[1]},
                     )
-                ca, cb = canon_frame(out_a[1]), canon_frame(out_b[1])
+                ca, cb = out_a[3], out_b[3]
                 if ca["index"] != cb["index"]:
                     raise _Fail(PROP, "same_output", f"{where}: output indices differ")
                 for feat in sorted(feats_a):
@@ -383,23 +471,23 @@ def execute(spec):
             "signature": fail.signature,
         }
         log.add("sim", "violation", None, fail.oracle)
-    sched = per.sess.sched
-    if sched.nontrivial():
+    if per["sched_nontrivial"]:
         stats.probe("schedule_differs_from_reference")
     rejected = {}
-    if ref.fit_outcome is not None and ref.fit_outcome[0] != "ok":
-        rejected[type(ref.fit_outcome[1]).__name__] = 1
+    if ref["fit"][0] != "ok":
+        rejected[ref["fit"][1]] = 1
+    decisions = per["sched_decisions"]
     return {
         "fingerprint": log.fingerprint(),
         "violations": [violation] if violation else [],
         "stats": stats.as_dict(),
-        "nontrivial": bool(sched.nontrivial() and kept_features >= 2),
-        "distinct_key": digest([spec["world"], spec["ops"], spec.get("subset"), sched.signature()]),
-        "sched_key": sched.signature(),
-        "sched_decisions": sched.decisions if len(sched.decisions) <= 20000 else None,
+        "nontrivial": bool(per["sched_nontrivial"] and kept_features >= 2),
+        "distinct_key": digest([spec["world"], spec["ops"], spec.get("subset"), per["sched_signature"]]),
+        "sched_key": per["sched_signature"],
+        "sched_decisions": decisions if len(decisions) <= 20000 else None,
         "steps": len(spec["ops"]) + 2,
         "skipped": 0,
-        "sim_time": log.seq + len(sched.decisions),
+        "sim_time": log.seq + len(decisions),
         "world_rejected": rejected,
         "compared_features": compared_features,
     }
